@@ -227,7 +227,7 @@ void CDNS::CdnsDecoder::skip_item()
             }
             if (item_length == 31) {
                 while(true) {
-                    if (peek_type() == CborType::SIMPLE && (m_p[0] & 0x1F) == 31) {
+                    if (peek_type() == CborType::BREAK) {
                         m_p++;
                         break;
                     }
